@@ -423,6 +423,15 @@ def multiscale_rule(ctx):
         return "%s: found `%s`, the composition requires `%s`" % (where, show(got)[:110], show(want)[:110])
 
     CONFIGS = [(1, 1, (6, 4)), (2, 1, (6, 4)), (3, 1, (9, 4)), (4, 1, (19,)), (2, 2, (4, 7)), (3, 2, (3, 9)), (2, 3, (2, 3, 5))]
+    if getattr(ctx, "tier", "quick") == "thorough":
+        # every stage count up to 6 x every split dimension up to 4 x odd and even sizes that keep
+        # at least two entries along the split dimension at every stage
+        CONFIGS = []
+        for k in range(1, 7):
+            for d in range(1, 5):
+                for size in (2 ** k, 2 ** k + 1, 3 * 2 ** (k - 1) + 1, 2 ** (k + 1) - 1):
+                    shape = [3, 2, 5, 2][: d - 1] + [size] + ([4] if d < 3 else [])
+                    CONFIGS.append((k, d, tuple(shape)))
     n_dec = 0
     for k, d, shape0 in CONFIGS:
         tag = "%d stage(s), split_dim=%d, input shape %s" % (k, d, shape0)
